@@ -778,10 +778,21 @@ func selftestDeterminism(id string) int {
 		var results []res
 		var mu sync.Mutex
 		var wg sync.WaitGroup
-		for i, procs := range []string{"1", "1", "4", "4", "16", "16"} {
+		nproc := 6
+		if n, err := strconv.Atoi(os.Getenv("VERIF_DET_PROCS")); err == nil && n >= 2 {
+			nproc = n // e.g. 30: a rare divergence (p = 1/8) is missed by a two-run diff four times in five
+		}
+		var plist []string
+		for i := 0; i < nproc; i++ {
+			plist = append(plist, []string{"1", "4", "16"}[i%3])
+		}
+		slots := make(chan struct{}, 16)
+		for i, procs := range plist {
 			wg.Add(1)
 			go func(i int, procs string) {
 				defer wg.Done()
+				slots <- struct{}{}
+				defer func() { <-slots }()
 				b, _ := json.Marshal(workerCfg{Property: id, Engine: p.engine, Config: c.name, Seed: 777, Shard: 0, Shards: 1, Runs: 60,
 					Out: filepath.Join(scratch, fmt.Sprintf("det-%s-%d.json", c.name, i)), Params: withParam(c.params, "det_digest", true), ReplayDir: scratch})
 				cmd := exec.Command(bw.bin, "-test.run", "^TestVerifWorker$", "-test.cpu", procs, "-test.count", "1", "-test.timeout", "0")
